@@ -248,7 +248,7 @@ def generate(rng, tier, index):
     sc["det_seed"] = rng.randrange(2**32) if det else None
     sc["py_seed"] = rng.randrange(10**9)
     sc["py_seed2"] = rng.randrange(10**9)
-    sc["max_calls"] = rng.choice([10, 25, 60])
+    sc["max_calls"] = rng.choice([10, 25, 60]) if not (tier == "thorough" and rng.random() < 0.3) else rng.choice([100, 200])
     sc["max_steps"] = rng.choice([1, 2, 4, 8, 20, None if not real else 3])
     sc["temperature"] = rng.choice([5.0, 1.0, 0.2])
     sc["decay"] = rng.choice([0.995, 0.9, 0.5])
@@ -696,10 +696,10 @@ def _prng_xorshift(sc, res, dr):
             res.violate("C19/reseed-not-reproducible", f"seed({s}) twice gave different streams: {one[:3]} vs {two[:3]}")
         elif any(type(x) is not int or not 0 <= x < 2**32 for x in one):
             res.violate("C19/random-out-of-range", f"raw output outside [0, 2^32): {[x for x in one if not (type(x) is int and 0 <= x < 2**32)][:3]}")
-        elif one == three:
-            res.violate("C19/reseed-not-reproducible", f"seeds {s} and {s + 1} give the same stream")
-        elif len(set(one)) < len(one) * 3 // 4:
-            res.violate("C19/random-not-uniform", f"raw stream after seed({s}) repeats: {one[:8]}")
+        elif len(set(one)) == 1:
+            # (different seeds giving different streams is not demanded by the property; a constant
+            # raw stream, however, cannot be uniform under any reading)
+            res.violate("C19/random-not-uniform", f"raw stream after seed({s}) is constant: {one[:4]}")
         # seeding through srandom is the same thing
         import cspuz.generator.srandom as srandom
 
@@ -1169,8 +1169,6 @@ def exec_gen(sc, variant, res, check=True, retain=True):
                         ok = any(c.get("is_sat") and c.get("unique_expected") for c in same)
                     if not ok:
                         viol.append(("C19/returned-problem-not-accepted", f"the returned problem {tr.result_obj!r} was not accepted by the uniqueness test"))
-        if sc["max_steps"] is not None and not sc["use_builder_pattern"] and tr.gen_calls > sc["max_steps"]:
-            viol.append(("C19/returned-problem-not-accepted", f"neighbour generator invoked {tr.gen_calls} times with max_steps={sc['max_steps']}"))
         # an exception out of generate_problem means nothing was returned: C19 says nothing about
         # it (e.g. SegmentationBuilder2D.initial() can walk into a dead end and raise IndexError),
         # so it is recorded as inconclusive, never as a violation.  If only one of the two
@@ -1310,6 +1308,14 @@ def _run_hashseed(sc, res):
     here = seq_digest(inner)
     key = (core.digest(inner), sc["hashseed"])
     there = _FRESH_CACHE.pop(key, None) or fresh_seq(inner, sc["hashseed"])
+    key2 = (core.digest(inner), sc["hashseed"] + 7919)
+    there2 = _FRESH_CACHE.pop(key2, None) or fresh_seq(inner, sc["hashseed"] + 7919)
+    if there2 != there:
+        res.log("hashseed", sc["hashseed"] + 7919, there, there2)
+        res.violate(
+            "C19/hashseed-dependent",
+            f"candidate sequences under PYTHONHASHSEED={sc['hashseed']} and {sc['hashseed'] + 7919} (two fresh interpreters) differ",
+        )
     res.steps += 1
     res.log("hashseed", sc["hashseed"], here, there)
     res.hit("fresh_interpreter_replays")
@@ -1321,6 +1327,15 @@ def _run_hashseed(sc, res):
 # ======================================================================================
 # pre-check: exhaustive reduced-domain enumeration + hash-seed sample
 # ======================================================================================
+
+
+def _has_str_values(p):
+    for leaf in _leaves(p):
+        if leaf[0] == "array" and any(isinstance(v, str) or v is None for v in leaf[3]):
+            return True
+        if leaf[0] == "choice" and any(isinstance(v, str) for v in leaf[1]):
+            return True
+    return False
 
 
 def prng_scenarios(tier):
@@ -1361,22 +1376,29 @@ def pre_check(tier, master):
         if r.violations:
             violations.append({"index": sc["index"], "seed": 0, "scenario": sc, "violations": r.violations})
     # hash-seed sample: gen scenarios re-executed in fresh interpreters
-    n_hs = 12 if tier == "quick" else 150
+    n_hs = 96 if tier == "quick" else 600
     hs = []
     i = 0
-    while len(hs) < n_hs and i < 20 * n_hs:
+    while len(hs) < n_hs and i < 200 * n_hs:
         rs = core.run_seed(master, ID + ":hashseed", i)
         inner = generate(pyrandom.Random(rs), tier, i)
         i += 1
         if inner["kind"] != "gen" or inner["det_seed"] is None or inner["solver"]["type"] == "real":
             continue
+        # hash order can only matter where str / None values occur (ints and tuples of ints hash
+        # the same in every interpreter): three quarters of the sample are such scenarios
+        if len(hs) % 4 != 3 and not _has_str_values(inner["pattern"]):
+            continue
+        if len(hs) % 4 in (0, 1) and not any(l[0] == "array" and l[5]["symmetry"] for l in _leaves(inner["pattern"])):
+            continue
         hs.append({"prop": ID, "kind": "hashseed", "inner": inner, "hashseed": 1 + (rs % 4000), "seed": rs, "index": -1000 - i})
     # the fresh interpreters run in parallel; everything that touches this process's global
     # PRNG state runs sequentially afterwards
-    with concurrent.futures.ThreadPoolExecutor(max_workers=12) as ex:
-        theres = list(ex.map(lambda h: fresh_seq(h["inner"], h["hashseed"]), hs))
-    for h, t in zip(hs, theres):
-        _FRESH_CACHE[(core.digest(h["inner"]), h["hashseed"])] = t
+    jobs = [(h["inner"], h["hashseed"]) for h in hs] + [(h["inner"], h["hashseed"] + 7919) for h in hs]
+    with concurrent.futures.ThreadPoolExecutor(max_workers=16) as ex:
+        theres = list(ex.map(lambda j: fresh_seq(j[0], j[1]), jobs))
+    for (inner_j, hs_j), t in zip(jobs, theres):
+        _FRESH_CACHE[(core.digest(inner_j), hs_j)] = t
     results = [run(h) for h in hs]
     for sc, r in zip(hs, results):
         evaluations += 1
